@@ -284,7 +284,21 @@ fn render_fixture(w: &mut W, out: &mut Rendered, f: &FixtureSpec, item_idx: usiz
     let start = 4;
     let end = 4 + func_name.len();
     let mut deps = Vec::new();
+    // `body / 3 == 1`: the signature is wrapped, one parameter per line with a trailing comma; the
+    // parameters then sit on continuation lines of the definition
+    let wrapped = (f.body / 3) % 2 == 1 && !f.deps.is_empty();
+    if wrapped {
+        w.push(s.clone());
+        s = String::new();
+    }
     for (i, d) in f.deps.iter().enumerate() {
+        if wrapped {
+            let l = format!("    {},", NAMES[*d]);
+            deps.push(NAMES[*d].to_string());
+            out.uses.push(UseTok { name: NAMES[*d].to_string(), line: w.cur(), start: 4, end: 4 + NAMES[*d].len(), kind: UseKind::FixtureParam, in_def_line: Some(line), in_func: Some(func_name.clone()) });
+            w.push(l);
+            continue;
+        }
         if i > 0 {
             s.push_str(", ");
         }
@@ -310,7 +324,7 @@ fn render_fixture(w: &mut W, out: &mut Rendered, f: &FixtureSpec, item_idx: usiz
     }
     w.push(s);
     w.push(format!("    \"\"\"DOC{}\"\"\"", f.tag));
-    let body_first = line + 1;
+    let body_first = w.cur() - 1;
     for n in &f.body_uses {
         let l = "    setup(".to_string();
         let start = l.len();
